@@ -117,7 +117,13 @@ def c_fields(busw):
     d = mk(Top)
     h = HwCheck(f"fields(bus={busw})", d, [d.bus.adr, d.bus.we, d.bus.re, d.bus.dat_w, d.stat.fields.busy, d.stat.fields.code, d.stat.fields.cnt])
     st = h.v(d.ctrl.storage); F = d.ctrl.fields; re = b(h.v(d.ctrl.re))
-    assert d.ctrl.size == 13 and d.stat.size == 18
+    # the aggregate's size and every field's resolved offset are structural postconditions of CSRFieldAggregate (explicit offsets kept, an
+    # unplaced field right after its predecessor): a wrong layout is REPORTED here, the bit-level clauses below are stated only for the right one
+    want = dict(ctrl=(13, dict(en=0, go=1, mode=4, len=7)), stat=(18, dict(busy=0, code=3, cnt=8)))
+    got = {n: (getattr(d, n).size, {f.name: f.offset for f in getattr(d, n).fields.fields}) for n in want}
+    h.pre_results = [res("ens.field-layout(size, resolved offsets)", "ensures", PROVED if got == want else VIOLATED, 0, "executed", info="" if got == want else f"got {got}, declared {want}")]
+    if got != want:
+        h.cover("cover.elaborated", z3.BoolVal(True), depth=1); return h
     h.ensure("ens.field.en", h.v(F.en) == z3.Extract(0, 0, st))
     h.ensure("ens.field.mode", h.v(F.mode) == z3.Extract(6, 4, st))
     h.ensure("ens.field.len", h.v(F.len) == z3.Extract(12, 7, st))        # automatic offset: right after the previous field
